@@ -161,9 +161,13 @@ func c15Gen(seed int64, idx int) c15Case {
 			if len(importers[f]) > 0 {
 				sb.WriteString("import (\n")
 				for _, d := range importers[f] {
-					if rng.Chance(1, 4) {
+					switch rng.Intn(6) {
+					case 0:
 						fmt.Fprintf(&sb, "\tal%d %q\n", d, pkgs[d].Import)
-					} else {
+					case 1:
+						// imported for its side effects only: still loaded and initialised, with its own imports
+						fmt.Fprintf(&sb, "\t_ %q\n", pkgs[d].Import)
+					default:
 						fmt.Fprintf(&sb, "\t%q\n", pkgs[d].Import)
 					}
 				}
@@ -414,7 +418,7 @@ func c15Check(c c15Case, log []string, o core.Outcome) string {
 }
 
 func runC15(r *core.Run) {
-	r.SetRule("random acyclic import graphs of 1-12 packages (fan-out <= 4, diamonds, chains, unreachable packages), 1-4 files per package with sort-order trap names, per-file imports and aliases, directories at the full import path / under vendor/ (optionally with a decoy at the plain path) / at a shortened suffix, //go:build lines of known truth (first line, after blank lines, after comment blocks that mention 'package', 'import' and 'func', before a package comment), 1-3 _test.go files incl. package x_test and adjacent ones; top-level statements with block-scoped variables (for, range, switch and if with init) in packages at every depth of the graph; entry through Load(package) or Eval with an import; plus every digraph on <= 3 nodes and every sparse digraph on 4 nodes with a cycle reachable from the entry, and conflicting package clauses. non-trivial = at least 2 packages ran markers (or the case must fail); distinct by file tree")
+	r.SetRule("random acyclic import graphs of 1-12 packages (fan-out <= 4, diamonds, chains, unreachable packages), 1-4 files per package with sort-order trap names, per-file imports, aliases and blank imports, directories at the full import path / under vendor/ (optionally with a decoy at the plain path) / at a shortened suffix, //go:build lines of known truth (first line, after blank lines, after comment blocks that mention 'package', 'import' and 'func', before a package comment), 1-3 _test.go files incl. package x_test and adjacent ones; top-level statements with block-scoped variables (for, range, switch and if with init) in packages at every depth of the graph; entry through Load(package) or Eval with an import; plus every digraph on <= 3 nodes and every sparse digraph on 4 nodes with a cycle reachable from the entry, and conflicting package clauses. non-trivial = at least 2 packages ran markers (or the case must fail); distinct by file tree")
 	r.Assume("only the partial order (dependencies before dependents), exactly-once and the exclusion rules are judged, not one particular topological order")
 	n := r.N(3000, 120000)
 	core.Parallel((n+99)/100, func(chunk int) {
